@@ -8,13 +8,21 @@ _RULE = ("delta: encoder ops on lengths {0,1,2,3,31..34,64..66,97,127..131,256..
          "guard boundary and random bytes, with requested counts n-1,n,n+1,0,random,-1,n+200; byte arrays: 13 list lengths "
          "x 7 string patterns (empty, shared prefixes, identical, one long up to 70000, growing) x both encodings, work "
          "buffer sizes exact/±1/0, negative lengths, prefix > previous, prefix on first value, prefix INT32_MAX; "
+         "values too long to print given by their lengths (ops dl_big/ds_big: uniform bytes; lengths 0,2^27,0 and "
+         "variants for n = 2..6 and 130 — the inputs the old 10n+100 scratch buffer refused — plus list lengths "
+         "1,2,3,5,6,127..130,256..258), tied on status, length-stream bytes and output size; decoder ops report the "
+         "returned pointers as offsets (input / work buffer), tied to the instrumented models; "
          "distinct = distinct (op, inputs)")
 _ASSUME = ["little-endian host", "num_values >= 0 and equal to the array length passed (API contract)",
            "carquet_bitpack_32/carquet_bitunpack_32 enter the delta model by their LSB-first behaviour on groups of 8 "
            "(tied here by the byte-exact correspondence; modelled loop by loop by the bit-packing component)",
-           "malloc failure and output-buffer growth failure of the byte-array encoders are not modelled (C19)"]
-_TRUST = ["harness/ops_delta.c contains a second, independent writer of the format (cross-checked against Spec.Delta.decode on every run)"]
-_IMPL = {"Impl.Delta": "exact", "Impl.Delta.packBits/unpackBits (carquet_bitpack_32/bitunpack_32 as called with 32 values)": "abstract",
+           "malloc failure and output-buffer growth failure of the byte-array encoders are not modelled (C19)",
+           "byte arrays are shorter than 2 GiB and have non-negative length (the int32_t length field of carquet_byte_array_t)"]
+_TRUST = ["translate/gen_delta.py also translates the two scratch-capacity expressions of delta_length.c / delta_strings.c "
+          "(unsigned + * / on literals and num_values) into Lean; anything else in those expressions is refused",
+          "harness/ops_delta.c contains a second, independent writer of the format (cross-checked against Spec.Delta.decode on every run)"]
+_IMPL = {"Impl.DeltaLength.decodeSlices / Impl.DeltaStrings.decodeAcc (decoders with pointers and copies as data)": "exact (proved equal to the decoders, offsets tied)",
+         "Impl.Delta": "exact", "Impl.Delta.packBits/unpackBits (carquet_bitpack_32/bitunpack_32 as called with 32 values)": "abstract",
          "Impl.DeltaLength": "exact", "Impl.DeltaStrings": "exact"}
 
 PART = {
@@ -22,7 +30,9 @@ PART = {
     imports=["Carquet.Properties.C08.Delta"],
     obligations=["Carquet.Properties.C08.C08_delta_writes_in_output_and_consumed_le",
                  "Carquet.Properties.C08.C08_delta_reads_in_input",
-                 "Carquet.Properties.C08.C08_regression_F30"],
+                 "Carquet.Properties.C08.C08_regression_F30",
+                 "Carquet.Properties.C08.C08_delta_length_slices_in_input",
+                 "Carquet.Properties.C08.C08_delta_strings_accesses_in_bounds"],
     components=["delta"], fidelity=_IMPL, rule=_RULE,
     assumptions=_ASSUME + ["heap behaviour is observed under ASan/UBSan with exact-size buffers, not proved"],
     trusted_base=_TRUST,
@@ -34,7 +44,11 @@ PART = {
                  "Carquet.Properties.C11.C11_delta_encode_succeeds",
                  "Carquet.Properties.C11.C11_delta_empty_edge",
                  "Carquet.Properties.C11.C11_delta_length_roundtrip",
-                 "Carquet.Properties.C11.C11_delta_strings_roundtrip"],
+                 "Carquet.Properties.C11.C11_delta_strings_roundtrip",
+                 "Carquet.Properties.C11.C11_delta_bytes_encode_succeeds",
+                 "Carquet.Properties.C11.C11_delta_length_roundtrip_total",
+                 "Carquet.Properties.C11.C11_delta_strings_roundtrip_total",
+                 "Carquet.Properties.C11.C11_regression_F61"],
     components=["delta"], fidelity=_IMPL, rule=_RULE, assumptions=_ASSUME, trusted_base=_TRUST,
   ),
   "C12": dict(
@@ -49,14 +63,15 @@ PART = {
                  "Carquet.Properties.C12.C12_delta_length_impl_to_spec",
                  "Carquet.Properties.C12.C12_delta_length_spec_to_impl",
                  "Carquet.Properties.C12.C12_delta_strings_impl_to_spec",
-                 "Carquet.Properties.C12.C12_delta_strings_spec_to_impl"],
+                 "Carquet.Properties.C12.C12_delta_strings_spec_to_impl",
+                 "Carquet.Properties.C12.C12_delta_bytes_impl_to_spec_total"],
     components=["delta"], fidelity=_IMPL, rule=_RULE, assumptions=_ASSUME, trusted_base=_TRUST,
   ),
 }
 
 # what the check delivers, in the component builder's words
 PART['C11'].update(
-    text='(delta part) DELTA_BINARY_PACKED int32/int64, DELTA_LENGTH_BYTE_ARRAY, DELTA_BYTE_ARRAY: decode(encode v) = v with consumed = |encoding| proved for all non-empty sequences the API can express (any length, wrap-around, extreme values) on exact models of the repaired code; the length-0 edge is stated as observed',
+    text='(delta part) DELTA_BINARY_PACKED int32/int64, DELTA_LENGTH_BYTE_ARRAY, DELTA_BYTE_ARRAY: decode(encode v) = v with consumed = |encoding| proved for all non-empty sequences the API can express (any length, wrap-around, extreme values) on exact models of the repaired code; the byte-array encoders are proved to succeed on every non-empty list (scratch capacity re-extracted from the source and proved sufficient; F61: the old 10n+100 refused lengths 0,2^27,0), so their round trips carry no condition on the encode status; the length-0 edge is stated as observed',
     level_note='Lean kernel; translator; harness (ASan/UBSan, exact-size buffers)',
     technique='Lean 4 proof (encoder and decoder both related to the format grammar) + byte-exact correspondence to the C code')
 PART['C12'].update(
@@ -64,6 +79,6 @@ PART['C12'].update(
     level_note='Lean kernel; translator; harness with an independent C writer of the format',
     technique='Lean 4 proof over a grammar shared by Spec decoder, Impl decoder and Impl encoder + correspondence')
 PART['C08'].update(
-    text='(delta part, partial) for the DELTA_BINARY_PACKED decoders: output count = requested count, consumed <= size, geometry after init is 128/4 so the group-wise bit reader stays inside the checked bytes; heap safety itself is observed under ASan/UBSan on mutated, grammar-generated and random bytes',
+    text='(delta part, partial) for the DELTA_BINARY_PACKED decoders: output count = requested count, consumed <= size, geometry after init is 128/4 so the group-wise bit reader stays inside the checked bytes; DELTA_LENGTH_BYTE_ARRAY: on arbitrary bytes the returned slices are consecutive, inside [end of length stream, consumed) and consumed <= size; DELTA_BYTE_ARRAY: every suffix read inside the input, every value inside the work buffer, every prefix copy inside the previous value (decoders instrumented with their accesses as data, proved equal to the plain decoders, offsets tied to the real pointers); heap safety itself is observed under ASan/UBSan on mutated, grammar-generated and random bytes',
     level_note='Lean kernel for the arithmetic; sanitizers for the heap',
     technique='Lean 4 invariants on the decoder state machine + sanitizer-instrumented correspondence')
